@@ -321,7 +321,11 @@ theorem micro_pinv {op : Op} {fl cfg s p s' p'} (hp : PInv op p) (hs : (s', p') 
       simp only [microDet] at hs
       split at hs
       · cases hs
-      · exact recvStep_pinv hp hs
+      · split at hs
+        · rename_i hr; cases hs; exact recvStep_pinv hp hr
+        · split at hs
+          · cases hs; exact hp
+          · cases hs
     | rvSend t v =>
       have hr : isRecvOp op = false := by cases op <;> simp_all [isSendOp, isRecvOp, PInv]
       simp only [microDet] at hs
@@ -375,11 +379,18 @@ theorem micro_pinv {op : Op} {fl cfg s p s' p'} (hp : PInv op p) (hs : (s', p') 
           · simp at hs
         | _ => simp [microSpur] at hs
       | bsend t f h sent rest q =>
-        simp only [microSpur] at hs
-        split at hs
-        · rw [Option.mem_toList] at hs
-          exact sendStep_pinv hp.1 hp.2 hs
-        · simp at hs
+        simp only [microSpur, mem_append] at hs
+        rcases hs with hs | hs
+        · split at hs
+          · rw [Option.mem_toList] at hs
+            exact sendStep_pinv hp.1 hp.2 hs
+          · simp at hs
+        · split at hs
+          · simp only [mem_singleton] at hs
+            have e2 : p' = (failSend fl s f .closed sent rest).2 := by rw [← hs]
+            subst e2
+            exact failSend_pinv hp.1 hp.2
+          · simp at hs
       | brecv t f h n got =>
         have hso : isSendOp op = false := by cases op <;> simp_all [isSendOp, isRecvOp, PInv]
         simp only [PInv] at hp
